@@ -52,7 +52,7 @@ def main():
                     units.append(('aho', lens, ins, order))
     units.append(('aho-contract',))
     units.append(('syntax', 5 if quick else 7))
-    for l in ([['a', 'b'], ['a*', '*b', '*c*'], ['a', 'ia', '?a'], ['ia*', 'i*b'], ['*a*', '', 'b'], ['ab', '*b', 'a*'], ['?a', '?b', 'c']] +
+    for l in ([['a', 'b'], ['a*', '*b', '*c*'], ['a', 'ia', '?a'], ['ia*', 'i*b'], ['*a*', '', 'b'], ['ab', '*b', 'a*'], ['?a', '?b', 'c'], ['i?a', 'i?b'], ['i?ab', 'i?b', 'ic'], ['ia', 'ib', 'c']] +
               ([] if quick else [['a', 'b', 'c', 'd'], ['*ab*', '*ba*', 'ab'], ['iab', 'Ab', '*B'], ['a*', 'b*', 'ic*', '?d']])):
         units.append(('batch', l))
     ck.run_units(units, run_unit)
